@@ -668,6 +668,7 @@ run_hop(void *argp)
 // ---- driver ------------------------------------------------------------------
 static double g_rate = 500, g_cap, g_t0left;
 static char   g_depths[500];
+static int    g_replay; // --replay: offer every candidate scenario name
 
 static double
 powd(double b, int e)
@@ -690,11 +691,7 @@ explore_seq(const char *name, seqarg *a, int dmax, int dmin, double share)
 	int d = dmax;
 	while (d > dmin && powd(a->nletters, d) / g_rate * 1.25 > share * g_cap)
 		d--;
-	a->depth = d;
 	char nm[64];
-	snprintf(nm, sizeof(nm), "pair%d-%s-d%d", a->proto, name, d);
-	snprintf(g_depths + strlen(g_depths), sizeof(g_depths) - strlen(g_depths),
-	    "%s%s", g_depths[0] ? " " : "", nm);
 	vx_cfg c;
 	memset(&c, 0, sizeof(c));
 	c.prop     = "C08";
@@ -703,6 +700,18 @@ explore_seq(const char *name, seqarg *a, int dmax, int dmin, double share)
 	c.arg      = a;
 	c.budget[VB_ENV] = -1;
 	c.total          = 0;
+	if (g_replay) { // the replay file names the depth
+		for (d = dmin; d <= dmax; d++) {
+			a->depth = d;
+			snprintf(nm, sizeof(nm), "pair%d-%s-d%d", a->proto, name, d);
+			vx_explore(&c, NULL);
+		}
+		return;
+	}
+	a->depth = d;
+	snprintf(nm, sizeof(nm), "pair%d-%s-d%d", a->proto, name, d);
+	snprintf(g_depths + strlen(g_depths), sizeof(g_depths) - strlen(g_depths),
+	    "%s%s", g_depths[0] ? " " : "", nm);
 	vx_stats st;
 	memset(&st, 0, sizeof(st));
 	vx_explore(&c, &st);
@@ -730,6 +739,9 @@ main(int argc, char **argv)
 {
 	vx_init(argc, argv, "C08");
 	int T    = vx_is_thorough();
+	for (int i = 1; i < argc; i++)
+		if (!strcmp(argv[i], "--replay"))
+			g_replay = 1;
 	g_t0left = vx_time_left();
 	g_cap    = T ? 1000 : 60;
 	if (g_cap > g_t0left - 60)
